@@ -84,7 +84,8 @@ def replay (j : Json) : R Verdict := do
       pf := ("C10", "initial_value() of the accepted spec panicked") :: ("C15", "initial_value() panicked") :: pf
     else
       let iv ← decValue ivj
-      if !conf s iv then pf := ("C10", "the initial value of the accepted spec does not conform to it") :: pf
+      if !conf s iv then
+        pf := ("C01", s!"the initial value of an ACCEPTED spec - the first candidate of a run without a guess - does not conform to that spec ({(fieldD j "rule").compress})") :: ("C10", "the initial value of the accepted spec does not conform to it") :: pf
       if iv != initialValue s then dis := some "initial_value differs from the model's initialValue"
     -- mutations at probability 1 from the initial value (sent for accepted rule-breaking documents and soups)
     match (fieldD imp "walk").getArr?.toOption with
@@ -118,6 +119,12 @@ def replay (j : Json) : R Verdict := do
     | some ej =>
       let e ← decSpec ej
       if e != s then pf := ("C10", "the accepted parameter space is not the one written") :: pf
+      -- C08: without a guess the first individual is the init values written in the document
+      match decValue (fieldD imp "init") with
+      | .ok iv =>
+        if iv != initialValue e then
+          pf := ("C08", s!"the initial value of the accepted document ({(fieldD imp "init").compress}) is not the init values written in it: the first individual would not be the spec's init values") :: pf
+      | .error _ => pure ()
     | none => pure ()
   | none =>
     tags := "impl:reject" :: tags
